@@ -102,4 +102,22 @@ CHECKS = {
             {"name": "selfclosing", "test": "TestSelfClosing", "quick": 20000, "thorough": 200000, "shards": 8},
         ],
     },
+    "C09": {
+        "pkg": "c09",
+        "level": "exploration",
+        "level_text": ("The 12-cell negotiation table (advertised subset x preferred version) is covered cell by cell (each cell drawn with "
+                       "equal probability; the class histogram in the evidence shows the per-cell counts), each with a generated server hello "
+                       "(0-15 extra capability URIs incl. base-capability look-alikes, element prefix none/nc/random, one-line or pretty layout, "
+                       "XML declaration, extra attributes, session-id over the full 32-bit range or absent, or no hello at all), generated read "
+                       "segmentation, echoing or not. Oracle = the table written from the statement + exact capability list and session-id + "
+                       "strict parse of the client's hello + strict framing check of the first RPC in the selected and not the other framing."),
+        "level_note": "Trusted: sim.NCServer / HelloSpec renderer, encoding/xml, sim.DecodeChunkedPrefix. Capabilities contain no '&' or whitespace.",
+        "technique": "property-based testing (rapid) over an exhaustive 12-cell configuration table x generated hellos, table oracle + wire checks",
+        "rule": ("cell (0..11) x generated hello x cut plan x echo x read size. Non-trivial: prefixed element names, or >= 4 capabilities, or a "
+                 "preferred version given. Distinct = sha1(case)."),
+        "assumptions": ["capability URIs contain no '&' and no whitespace", "echoing transports: the echo of the client hello does not share a read with later bytes (known finding echo-hello-shares-read, see C02)"],
+        "subs": [
+            {"name": "negotiate", "test": "TestNegotiate", "quick": 1500, "thorough": 12000, "shards": 16},
+        ],
+    },
 }
